@@ -485,8 +485,8 @@ def p2(ctx, R):
             return False
         return pred
 
-    for attr, what, wit in (("expected", "expected-token set", "`if true` (end of input while a token is expected)"),
-                            ("curcommand", "current command", "`keep` without semicolon is accepted with an empty tree")):
+    for attr, what, wit in ((R.an("expected"), "expected-token set", "`if true` (end of input while a token is expected)"),
+                            (R.an("curcommand"), "current command", "`keep` without semicolon is accepted with an empty tree")):
         if cfg.guarded(rn, empty_fact(attr)):
             ctx.holds("P2", "`return True` only with an empty %s" % what)
         else:
@@ -494,7 +494,7 @@ def p2(ctx, R):
                           witness=wit)
     # bracket stack: a non-empty stack leads to raise (directly or by making the expected set non-empty)
     bfacts = [fc for fc in cfg.facts() if fc.lineno > after and not contains(fors[0], fc.expr) and isinstance(fact_atom(fc)[0], ast.Attribute)
-              and "expected_brackets" in fact_atom(fc)[0].attr and fact_atom(fc)[1] is True]
+              and R.an("expected_brackets") in fact_atom(fc)[0].attr and fact_atom(fc)[1] is True]
     ok = False
     for fc in bfacts:
         r = cfg.reach(fc, exc=False)
@@ -503,7 +503,7 @@ def p2(ctx, R):
         raises = [x for x in r if x.kind == "stmt" and isinstance(x.ast, ast.Raise)]
         if (sets or raises) and rn in r:
             # the path continues to the expected-set test, which rejects (checked above)
-            ok = bool(sets) and any(x.lineno < y.lineno for x in sets for y in cfg.facts(empty_fact("expected")) if True) or bool(raises)
+            ok = bool(sets) and any(x.lineno < y.lineno for x in sets for y in cfg.facts(empty_fact(R.an("expected"))) if True) or bool(raises)
         elif raises and rn not in r:
             ok = True
     if ok:
@@ -519,7 +519,7 @@ def p3(ctx, R):
         cfg = ctx.cfg(f)
         adoptions = []
         for st in walk_no_nested(f.node):
-            if isinstance(st, ast.Assign) and any(isinstance(t, ast.Attribute) and "curcommand" in t.attr for t in st.targets) \
+            if isinstance(st, ast.Assign) and any(isinstance(t, ast.Attribute) and R.an("curcommand") in t.attr for t in st.targets) \
                     and isinstance(st.value, ast.Name):
                 # only adoptions of a freshly looked-up command
                 v = st.value.id
@@ -617,7 +617,7 @@ def p4(ctx, R):
     raises = [r for r in walk_no_nested(pop.node) if isinstance(r, ast.Raise) and raise_name(r) == "ParseError"]
     empty = any(isinstance(h, ast.ExceptHandler) and h.type is not None and "IndexError" in norm(h.type) and any(
         isinstance(x, ast.Raise) for x in ast.walk(h)) for h in ast.walk(pop.node)) or any(
-        isinstance(i, ast.If) and "expected_brackets" in norm(i.test) and any(isinstance(x, ast.Raise) for x in ast.walk(i)) for i in ast.walk(pop.node))
+        isinstance(i, ast.If) and R.an("expected_brackets") in norm(i.test) and any(isinstance(x, ast.Raise) for x in ast.walk(i)) for i in ast.walk(pop.node))
     cfgp = ctx.cfg(pop)
     mismatch = False
     for fc in cfgp.facts():
@@ -769,9 +769,9 @@ def p7(ctx, R):
     def ok_fact(fc):
         e, pol = fact_atom(fc)
         cp = cmp_parts(e)
-        if cp and "expected" in norm(cp[0]) and isinstance(cp[2], ast.Constant) and cp[2].value is None:
+        if cp and R.an("expected") in norm(cp[0]) and isinstance(cp[2], ast.Constant) and cp[2].value is None:
             return (cp[1] == "Is") == pol  # nothing expected
-        if cp and cp[1] in ("In", "NotIn") and "expected" in norm(cp[2]) and "brackets" not in norm(cp[2]):
+        if cp and cp[1] in ("In", "NotIn") and norm(cp[2]).endswith(R.an("expected")):
             return (cp[1] == "In") == pol
         return False
     for c in calls:
@@ -781,13 +781,13 @@ def p7(ctx, R):
             ctx.violation("P7", f, "expected-not-enforced", "a token can be dispatched although it is not in the expected set", node=c,
                           witness="`if keep` / `anyof true` style sequences are accepted")
     clears = [st for st in walk_no_nested(f.node) if isinstance(st, ast.Assign) and any(
-        isinstance(t, ast.Attribute) and t.attr.lstrip("_").endswith("expected") for t in st.targets)
+        isinstance(t, ast.Attribute) and t.attr.lstrip("_") == R.an("expected") for t in st.targets)
         and isinstance(st.value, ast.Constant) and st.value.value is None]
 
     def in_fact(fc):
         e, pol = fact_atom(fc)
         cp = cmp_parts(e)
-        return bool(cp and cp[1] in ("In", "NotIn") and "expected" in norm(cp[2]) and ((cp[1] == "In") == pol))
+        return bool(cp and cp[1] in ("In", "NotIn") and norm(cp[2]).endswith(R.an("expected")) and ((cp[1] == "In") == pol))
     for st in clears:
         if all(cfg.guarded(n, in_fact) for n in cfg.nodes_for(st)):
             ctx.holds("P7", "expected set cleared only after a matching token")
@@ -827,7 +827,14 @@ def pending_block(ctx, R):
     raise AnalysisError("G2", "pending-parameter block not found in check_next_arg")
 
 
+def _cna_names(R):
+    """(type param, value param, add param) of check_next_arg, taken from its signature"""
+    ps = R.check_next_arg.params
+    return (ps[1] if len(ps) > 1 else "atype", ps[2] if len(ps) > 2 else "avalue", ps[3] if len(ps) > 3 else "add")
+
+
 def g2(ctx, R):
+    ATYPE, AVALUE, ADD = _cna_names(R)
     ctx.rule("G2", "pending tag parameter: every exit of the block is record+clear+return True or raise BadValue")
     cna = R.check_next_arg
     cfg = ctx.cfg(cna)
@@ -859,7 +866,7 @@ def g2(ctx, R):
 
         def add_false(fc):
             e, pol = fact_atom(fc)
-            return isinstance(e, ast.Name) and e.id == "add" and pol is False
+            return isinstance(e, ast.Name) and e.id == ADD and pol is False
         if stores and cfg.guarded(rn, add_false, establish=lambda m: m in stores):
             ctx.holds("G2", "parameter recorded in extra_arguments (unless add=False)")
         else:
@@ -869,6 +876,7 @@ def g2(ctx, R):
 
 
 def g4(ctx, R):
+    ATYPE, AVALUE, ADD = _cna_names(R)
     ctx.rule("G4", "every store into arguments is dominated by the type and value tests of the same slot definition")
     cna = R.check_next_arg
     cfg = ctx.cfg(cna)
@@ -897,23 +905,23 @@ def g4(ctx, R):
         def type_ok(fc):
             e, pol = fact_atom(fc)
             cp = cmp_parts(e)
-            if cp and cp[1] in ("In", "NotIn") and norm(cp[0]) == "atype" and slotvar in norm(cp[2]) and "type" in norm(cp[2]):
+            if cp and cp[1] in ("In", "NotIn") and norm(cp[0]) == ATYPE and slotvar in norm(cp[2]) and "type" in norm(cp[2]):
                 return (cp[1] == "In") == pol
-            if isinstance(e, ast.Call) and "valid_type" in (call_name(e) or "") and len(e.args) == 2 and norm(e.args[0]) == "atype" \
+            if isinstance(e, ast.Call) and "valid_type" in (call_name(e) or "") and len(e.args) == 2 and norm(e.args[0]) == ATYPE \
                     and slotvar in norm(e.args[1]):
                 return pol is True
-            if cp and norm(cp[0]) == "atype" and const_value(ctx.program, cna, cp[2]) == "test" and cp[1] in ("Eq", "NotEq"):
+            if cp and norm(cp[0]) == ATYPE and const_value(ctx.program, cna, cp[2]) == "test" and cp[1] in ("Eq", "NotEq"):
                 return (cp[1] == "Eq") == pol
             return False
 
         def value_ok(fc):
             e, pol = fact_atom(fc)
             if isinstance(e, ast.Call) and "valid_value" in (call_name(e) or "") and e.args and norm(e.args[0]) == slotvar \
-                    and len(e.args) > 1 and norm(e.args[1]) == "avalue":
+                    and len(e.args) > 1 and norm(e.args[1]) == AVALUE:
                 return pol is True
             cp = cmp_parts(e)
             if cp and cp[1] in ("In", "NotIn") and slotvar in norm(cp[2]):
-                if norm(cp[0]) == "avalue" and "values" in norm(cp[2]):
+                if norm(cp[0]) == AVALUE and "values" in norm(cp[2]):
                     return (cp[1] == "In") == pol
                 if const_value(ctx.program, cna, cp[0]) == "values":
                     return (cp[1] == "NotIn") == pol  # slot has no value restriction
@@ -929,7 +937,7 @@ def g4(ctx, R):
                           witness="an ill-typed argument or an illegal tag value is accepted")
         # the value stored is the incoming one, unmodified
         src = val.elts[0] if isinstance(val, ast.List) and val.elts else val
-        if not (isinstance(src, ast.Name) and src.id == "avalue"):
+        if not (isinstance(src, ast.Name) and src.id == AVALUE):
             ctx.violation("G4", cna, "store-value:%s" % norm(tg), "the value stored is %s, not the incoming argument" % norm(val), node=st)
     ctx.need("G4", "argument stores", n, 4)
 
@@ -938,18 +946,22 @@ def g5(ctx, R):
     ctx.rule("G5", "a failed match always raises BadArgument")
     cna = R.check_next_arg
     cfg = ctx.cfg(cna)
-    sets = [x for x in cfg.stmt_nodes() if isinstance(x.ast, ast.Assign) and any(isinstance(t, ast.Name) and t.id == "failed" for t in x.ast.targets)
+    FLAG = "failed"
+    for i_ in walk_no_nested(cna.node):
+        if isinstance(i_, ast.If) and isinstance(i_.test, ast.Name) and any(isinstance(r_, ast.Raise) and raise_name(r_) == "BadArgument" for r_ in i_.body):
+            FLAG = i_.test.id
+    sets = [x for x in cfg.stmt_nodes() if isinstance(x.ast, ast.Assign) and any(isinstance(t, ast.Name) and t.id == FLAG for t in x.ast.targets)
             and const_value(ctx.program, cna, x.ast.value) is True]
     if not sets:
         ctx.notice("G5", "no `failed = True` idiom (the interpreter may raise directly)")
         return
     # the only statement reading `failed` must lead to raise; nothing resets it
-    resets = [x for x in cfg.stmt_nodes() if isinstance(x.ast, ast.Assign) and any(isinstance(t, ast.Name) and t.id == "failed" for t in x.ast.targets)
+    resets = [x for x in cfg.stmt_nodes() if isinstance(x.ast, ast.Assign) and any(isinstance(t, ast.Name) and t.id == FLAG for t in x.ast.targets)
               and x not in sets and x.lineno > min(s.lineno for s in sets)]
 
     def failed_true(fc):
         e, pol = fact_atom(fc)
-        return isinstance(e, ast.Name) and e.id == "failed" and pol is True
+        return isinstance(e, ast.Name) and e.id == FLAG and pol is True
     tf = cfg.facts(failed_true)
     ok = bool(tf) and not resets
     for fc in tf:
@@ -1046,7 +1058,7 @@ def p12(ctx, R):
     seen_keyed = {}
     seen_unkeyed = {}
     for f in R.Parser.methods.values():
-        role = f.name.lstrip("_")
+        role = R.role_of(f)
         cfg = None
         for c in walk_no_nested(f.node):
             if not (isinstance(c, ast.Call) and call_name(c) == R.set_expected.name):
@@ -1077,8 +1089,8 @@ def p12(ctx, R):
         if len(got) == 1 and got[0][0] == want:
             ctx.holds("P12", "%s after %s -> %s" % (key[0], key[1] or "<command start>", sorted(want)))
         elif not got:
-            ctx.violation("P12", R.pm.get(key[0], R.parse), "transition-missing:%s/%s" % key, "after %s in %s no expected set is installed (the "
-                          "grammar allows only %s next)" % (key[1] or "a block-taking control", key[0], sorted(want)), node=R.pm.get(key[0], R.parse).node,
+            ctx.violation("P12", _by_role(R, key[0]), "transition-missing:%s/%s" % key, "after %s in %s no expected set is installed (the "
+                          "grammar allows only %s next)" % (key[1] or "a block-taking control", key[0], sorted(want)), node=_by_role(R, key[0]).node,
                           witness=transition_witness(key))
         else:
             s_, c, f = got[0]
@@ -1093,7 +1105,7 @@ def p12(ctx, R):
         if sorted(map(sorted, got)) == sorted(map(sorted, want)):
             ctx.holds("P12", "%s installs %s" % (role, [sorted(w) for w in want]))
         else:
-            f = R.pm.get(role, R.parse)
+            f = _by_role(R, role)
             ctx.violation("P12", f, "completion-sets:%s" % role, "%s installs the expected sets %s; the grammar needs %s" % (
                 role, sorted(map(sorted, got)), sorted(map(sorted, want))), node=f.node,
                 witness="after a complete test / command the wrong token is demanded (valid scripts rejected) or none (garbage accepted)")
@@ -1117,13 +1129,20 @@ def p12(ctx, R):
     ctx.need("P12", "transition obligations", n, 12)
     # the test's own first-token set is installed when a test is adopted
     adopt = [a for a in walk_no_nested(R.arguments.node) if isinstance(a, ast.Assign) and any(
-        isinstance(t, ast.Attribute) and t.attr.lstrip("_").endswith("expected") for t in a.targets)
+        isinstance(t, ast.Attribute) and t.attr.lstrip("_") == R.an("expected") for t in a.targets)
         and isinstance(a.value, ast.Call) and call_name(a.value) == "get_expected_first"]
     if adopt:
         ctx.holds("P12", "on adopting a test its get_expected_first() becomes the expected set")
     else:
         ctx.violation("P12", R.arguments, "expected-first-not-installed", "the first-token expectation of an adopted test is not installed",
                       node=R.arguments.node, witness="`if anyof true {...}` (missing parenthesis) is accepted")
+
+
+def _by_role(R, role):
+    for f in R.Parser.methods.values():
+        if R.role_of(f) == role:
+            return f
+    return R.parse
 
 
 def transition_witness(key):
@@ -1142,7 +1161,7 @@ def p13(ctx, R):
     f = R.command
     cfg = ctx.cfg(f)
     for st in walk_no_nested(f.node):
-        if isinstance(st, ast.Assign) and any(isinstance(t, ast.Attribute) and "curcommand" in t.attr for t in st.targets) and isinstance(st.value, ast.Name):
+        if isinstance(st, ast.Assign) and any(isinstance(t, ast.Attribute) and R.an("curcommand") in t.attr for t in st.targets) and isinstance(st.value, ast.Name):
             v = st.value.id
             if not any(isinstance(a, ast.Assign) and isinstance(a.value, ast.Call) and call_name(a.value) == R.lookup.name
                        and any(isinstance(t, ast.Name) and t.id == v for t in a.targets) for a in walk_no_nested(f.node)):
@@ -1154,7 +1173,7 @@ def p13(ctx, R):
             def no_parent(fc):
                 e, pol = fact_atom(fc)
                 cp = cmp_parts(e)
-                return bool(cp and "curcommand" in norm(cp[0]) and isinstance(cp[2], ast.Constant) and cp[2].value is None
+                return bool(cp and R.an("curcommand") in norm(cp[0]) and isinstance(cp[2], ast.Constant) and cp[2].value is None
                             and ((cp[1] == "Is") == pol))
             if add_nodes and all(cfg.guarded(n, no_parent, establish=lambda m: m in add_nodes) for n in cfg.nodes_for(st)):
                 ctx.holds("P13", "%s: nested command added to the current command's children before adoption" % f.qualname)
@@ -1165,14 +1184,14 @@ def p13(ctx, R):
             for a in walk_no_nested(f.node):
                 if isinstance(a, ast.Assign) and isinstance(a.value, ast.Call) and call_name(a.value) == R.lookup.name \
                         and any(isinstance(t, ast.Name) and t.id == v for t in a.targets):
-                    if len(a.value.args) >= 2 and "curcommand" in norm(a.value.args[1]):
+                    if len(a.value.args) >= 2 and R.an("curcommand") in norm(a.value.args[1]):
                         ctx.holds("P13", "%s: new command's parent is the current command" % f.qualname)
                     else:
                         ctx.violation("P13", f, "parent-link", "the new command is not created with the current command as parent", node=a)
     g = R.arguments
     cfgg = ctx.cfg(g)
     for st in walk_no_nested(g.node):
-        if isinstance(st, ast.Assign) and any(isinstance(t, ast.Attribute) and "curcommand" in t.attr for t in st.targets) and isinstance(st.value, ast.Name):
+        if isinstance(st, ast.Assign) and any(isinstance(t, ast.Attribute) and R.an("curcommand") in t.attr for t in st.targets) and isinstance(st.value, ast.Name):
             v = st.value.id
             chk = [c for c in walk_no_nested(g.node) if isinstance(c, ast.Call) and call_name(c) == "check_next_arg" and len(c.args) >= 2
                    and const_value(ctx.program, g, c.args[0]) == "test" and isinstance(c.args[1], ast.Name) and c.args[1].id == v]
@@ -1195,8 +1214,8 @@ def p14(ctx, R):
             cp = cmp_parts(e)
             return bool(cp and pol is True and cp[1] == "Eq" and const_value(ctx.program, f, cp[2]) == t)
         return pred
-    apps = [st for st in walk_no_nested(f.node) if (isinstance(st, ast.AugAssign) and "curstringlist" in norm(st.target)) or (
-        isinstance(st, ast.Expr) and isinstance(st.value, ast.Call) and call_name(st.value) == "append" and "curstringlist" in norm(st.value.func.value))]
+    apps = [st for st in walk_no_nested(f.node) if (isinstance(st, ast.AugAssign) and R.an("curstringlist") in norm(st.target)) or (
+        isinstance(st, ast.Expr) and isinstance(st.value, ast.Call) and call_name(st.value) == "append" and R.an("curstringlist") in norm(st.value.func.value))]
     ok = len(apps) == 1 and all(cfg.guarded(n, tok("string")) for n in cfg.nodes_for(apps[0]))
     if ok:
         v = apps[0].value.elts[0] if isinstance(apps[0], ast.AugAssign) and isinstance(apps[0].value, ast.List) and apps[0].value.elts else (
@@ -1215,7 +1234,7 @@ def p14(ctx, R):
         ctx.violation("P14", f, "item-not-appended", "string tokens inside brackets are not each appended, verbatim, to the current list", node=f.node,
                       witness='`["a", "b"]` is accepted but an item is missing or altered in the tree')
     hand = [c for c in walk_no_nested(f.node) if isinstance(c, ast.Call) and call_name(c) == "check_next_arg" and len(c.args) >= 2
-            and const_value(ctx.program, f, c.args[0]) == "stringlist" and "curstringlist" in norm(c.args[1])]
+            and const_value(ctx.program, f, c.args[0]) == "stringlist" and R.an("curstringlist") in norm(c.args[1])]
     if hand and all(cfg.guarded(n, tok("right_bracket")) for c in hand for n in cfg.node_containing(c)):
         ctx.holds("P14", "%s: the accumulated list is given to the command on `]`" % f.qualname)
     else:
@@ -1223,7 +1242,7 @@ def p14(ctx, R):
                       witness="bracketed lists are accepted and dropped")
     g = R.argument
     cfgg = ctx.cfg(g)
-    inits = [st for st in walk_no_nested(g.node) if isinstance(st, ast.Assign) and any("curstringlist" in norm(t) for t in st.targets)]
+    inits = [st for st in walk_no_nested(g.node) if isinstance(st, ast.Assign) and any(R.an("curstringlist") in norm(t) for t in st.targets)]
 
     def lb(fc):
         e, pol = fact_atom(fc)
@@ -1240,7 +1259,7 @@ def p14(ctx, R):
     else:
         ctx.violation("P14", g, "list-not-fresh", "`[` does not start a fresh empty list", node=g.node,
                       witness="items of a previous list leak into the next one")
-    sw = [st for st in walk_no_nested(g.node) if isinstance(st, ast.Assign) and any("cstate" in norm(t) for t in st.targets)]
+    sw = [st for st in walk_no_nested(g.node) if isinstance(st, ast.Assign) and any(R.an("cstate") in norm(t) for t in st.targets)]
     if sw and all(isinstance(st.value, ast.Attribute) and st.value.attr == R.stringlist.name for st in sw):
         ctx.holds("P14", "`[` switches the state function to the string-list handler")
     else:
